@@ -18,6 +18,12 @@ add('C01', 'l1', 'Generated well-formed projects are printed from an AST, loaded
 add('C03', 'l1', 'Exhaustive enumeration of the 4-locale domain (125 inherits maps x 27 presence patterns x 6 value kinds) at parser level plus random projects with 2-6 locales; text per locale and the DefaultedLocales grouping used by the code generator are compared with the model walk along `inherits`.',
     L1_NOTE + '`exhaustive` in the evidence refers to the enumerated 4-locale sub-domain only.',
     technique='exhaustive enumeration of a finite sub-domain + property-based testing against a reference model')
+add('C04', 'l1', 'Stage 1 (parser): generated range declarations over all numeric types are parsed and matched by an independent matcher, and `$t(range,{count:n})` must pick the same branch at parse time. Stage 2 (generated crates): the same kind of declarations compiled with load_locales!() and observed through td_string!/td_display!/td! in a run-time loop over every bound +-2, extremes (all 256 values for i8/u8; +-1 ulp for floats). Oracle: first containing branch under Rust range semantics.',
+    L1_NOTE + 'every generated integer range has a fallback; empty ranges (5..5, ..MIN) are not generated.',
+    technique='property-based testing against a reference model, at parser level and on generated crates (differential across three rendering back-ends)')
+add('C05', 'l1', 'Stage 1 (parser): hand-transcribed CLDR rules cross-checked against ICU4X; generated plural projects evaluated and `$t` literal counts resolved at parse time; UnusedForm diagnostics; raw plural-shaped key sets (mixing, collisions, single forms, no `other`). Stage 2 (generated crates): plural groups in 2-4 locales out of 16 covering every category pattern, observed through td_string!/td_display! (integers and FixedDecimal) and td! for 36 integer and 8 decimal counts.',
+    L1_NOTE + 'no fallback between locales for plural keys (which rules apply to an inherited plural is unspecified).',
+    technique='property-based testing against hand-transcribed CLDR rules (cross-checked with ICU4X), at parser level and on generated crates')
 add('C06', 'l1', 'Generated acyclic `$t` reference graphs (all target and argument kinds, null/inherited targets, namespaces) and mutated negative classes (missing target, group target, cycles); resolved trees from the parser are evaluated and compared with structural substitution on the AST; negative classes must be rejected naming the key.',
     L1_NOTE + '`$t` inside a component body is outside the generated domain.')
 add('C07', 'l1', 'Generated key-set variations (absent / null / surplus keys and groups at every depth, inherits maps, kind flips); the multiset of MissingKey/SurplusKey diagnostics and the accessible key set from parse_locales are compared with the model.',
@@ -48,6 +54,7 @@ add('C20', 'l1', 'Generated projects where plurals and each formatter family occ
 
 ENGINES = [
     dict(name='l1', path='engine/l1 (+ l1y, l1j5: same sources built for yaml / json5)', kind_free_text='in-process parser / code-generator / build-helper harness driven by proptest choice tapes; sources of the proc-macro crate compiled in via #[path]'),
+    dict(name='l2', path='engine/l2', kind_free_text='generated-crate tier: projects generated from choice tapes are emitted as cargo packages calling the real macros, compiled in one workspace, run, and their printed observations compared with the reference semantics (second stage of C01 C03 C04 C05 C06)'),
     dict(name='l0a', path='engine/l0a', kind_free_text='native (ssr) run-time harness: locale negotiation, context initialisation, context histories'),
 ]
 
